@@ -71,6 +71,8 @@ def handle (op : String) (args res : List String) : Option Verdict :=
         let fo := revFoldZ c (c.unscale y) (c.unscale x)
         if !(sameZ fo.p pc && sameZ fo.q qc) then
           .bad s!"Reverse: first-quadrant input used by the harness ({showF pc},{showF qc}) differs from the model's fold ({showF fo.p},{showF fo.q})"
+        else if !c.ext && (fo.p.signbit || fo.q.signbit) && !fo.p.isNaN then
+          .skip "|y| beyond the image of the far-side pole: the folded ξ is negative, the kernel is used outside the first quadrant (analytic continuation)"
         else
           let o := revUnfold c lon0 fo ⟨kp, kq, kg, kk⟩
           let l0 := Float.abs lon0.toFloat
@@ -81,6 +83,7 @@ def handle (op : String) (args res : List String) : Option Verdict :=
   | "tmkf" => some <|
     match args.mapM pfl, res.mapM pfl with
     | some [_a, f, lat, lon, sphi, cphi, slam, clam], some [eta, xi, g, k] =>
+      if !(lat ≤ 90 && lat ≥ 0 && lon ≥ 0 && lon ≤ 90) then .skip "not a first-quadrant input" else
       let m := fwdKernel f (lat == 90) lon sphi cphi slam clam
       let am := amp (coeffs Gen.TMSeries.alpcoeff (nOf f)) m.q
       let tz := 64 * eps * (1 + Float.abs m.p + Float.abs m.q + am)
